@@ -13,7 +13,7 @@ CHECK = {
     "design_ref": "DESIGN.md §4 C03",
     "technique": "Lean 4 theorems (order laws, key = apk scheme, operators, tilde; recogniser = grammar = denotation of a regex syntax tree that prints to the regenerated literals; parse/render round trip; constraint groups) over tables regenerated from version.go + differential correspondence Go vs Lean Impl/Spec",
     "trusted_base": LEAN_TB + ["Go regexp (gives the printed syntax of the three tied expressions its standard whole-match denotation Re.M, leftmost-first submatches)", "strconv.Atoi modelled as digitsToNat + 2^63 guard"],
-    "rule": "cases = a base version drawn from the grammar plus 2-4 single-field relatives (one field changed, respelled with leading zeros, byte-mutated 7%), every ordered pair compared, 6 random constraints and a tilde family per case; a step is non-trivial when both sides parse; distinct = distinct protocol lines. (Constraints as WRITTEN in an image configuration — a range as two entries of contents.packages, a cap plus --package-append — and strict operators at the boundary version of an already selected package are exercised end to end, against this order, by C02's suites glue-resolve and resolver; a build that violates a written constraint is reported there)",
+    "rule": "cases = a base version drawn from the grammar plus 2-4 single-field relatives (one field changed, respelled with leading zeros, byte-mutated 7%), every ordered pair compared, 6 random constraints and a tilde family per case; v.res steps apply constraints the way the RESOLVER does: three one-candidate universes (world entry, dependency on the name, dependency on a name the candidate provides as n=v) must resolve iff the constraint accepts the candidate version (the operator the constraint carries, not the provide entry's); a step is non-trivial when both sides parse; distinct = distinct protocol lines. (Constraints as WRITTEN in an image configuration — a range as two entries of contents.packages, a cap plus --package-append — and strict operators at the boundary version of an already selected package are exercised end to end, against this order, by C02's suites glue-resolve and resolver; a build that violates a written constraint is reported there)",
     "assumptions": ["Go's regexp implements RE2 semantics for the two tied literals", "byte-level (Latin-1) view of strings is exact because both regexes only test ASCII bytes"],
     "text": "Machine-checked: CompareVersions = lexicographic order of the apk key (hence a linear order on parsed versions), rank chains over the regenerated tables, every operator and ~ equal to their order-theoretic spec, Impl parser sound w.r.t. the grammar recogniser (complete below 2^63; F03a recorded). Grammar: recognise s = some r <-> Grammar s r (concatenation reading of versionRegex; greedy choices forced, grammar unambiguous), Grammar = denotation of a regex syntax tree whose print equals the regenerated literal (suffix alternatives = non-empty switch keys); parse_render/parse_range: the parser's range is exactly WFv (Impl: WFv and every field < 2^63). Constraints: matchPackageName s = some(..) <-> the packageNameRegex match with the longest operator run, none <-> no match; constraint_split (+ no-pin / no-version / give-back variants), the so: rule (cut at first '=', '0.' prepended unless the remainder, pin included, ends in -rN), endsWithRelease = '-r\\d+$'. The model is tied to version.go by regenerated tables/literals/statement lists and by differential correspondence on generated strings.",
 }
